@@ -13,7 +13,7 @@ from .. import ir
 from ..paths import paths, walk, root, Raised
 from ..report import AnalysisError
 from .algebra import identical
-from .common import const_value, zero_test, nonzero_test, return_cases
+from .common import nonempty_test, const_value, zero_test, nonzero_test, return_cases
 
 META = {
     "explanation": "Typestate/COUNT over exception-aware paths of MultiValueTracker.update (per-iteration paths of the "
@@ -206,10 +206,11 @@ def _update(run, prog, cls):
         if allkeys is None:
             run.fail("TYPESTATE", "U3.set", f"{s.path}:{lp.line}", fq, f"zero-fill over {ir.show_nl(it)}",
                      f"zero-fill must range over (tracked keys - keys of the update); it ranges over {ir.show_nl(it)}")
-        if ctx.guards:
+        real_guards = [g for g in ctx.guards if not nonempty_test(g, it)]
+        if real_guards:
             run.fail("TYPESTATE", "U3.guard", f"{s.path}:{lp.line}", fq,
-                     f"guarded zero-fill: {ir.show_nl(ctx.guards[-1])}",
-                     f"the zero-fill pass only runs when {ir.show_nl(ctx.guards[-1])}: a tracked key omitted from an "
+                     f"guarded zero-fill: {ir.show_nl(real_guards[-1])}",
+                     f"the zero-fill pass only runs when {ir.show_nl(real_guards[-1])}: a tracked key omitted from an "
                      f"update can go stale")
         ps = paths(lp.body, unroll=1, exc=True)
         ok = True
@@ -221,7 +222,7 @@ def _update(run, prog, cls):
                 got = ", ".join(ir.show_nl(a) for u in ups for a in u.args) or "no update"
                 run.fail("TYPESTATE", "U3.zero", f"{s.path}:{lp.line}", fq, f"zero-fill performs: {got}",
                          f"a tracked key missing from the update must be updated exactly once with 0; found: {got}")
-        if ok and allkeys and not ctx.guards:
+        if ok and allkeys and not real_guards:
             run.ok("TYPESTATE", "U3.zero", "every tracked key absent from the update gets exactly one update(0)")
     # ---- U4 ------------------------------------------------------------------------------------
     n1 = s.fields.get("N", ("field0", "N"))
